@@ -144,6 +144,41 @@ func (e *ctxExt) ResolveFieldDidStart(ctx context.Context, i *graphql.ResolveInf
 func (e *ctxExt) HasResult() bool                       { return false }
 func (e *ctxExt) GetResult(context.Context) interface{} { return nil }
 
+// recExt: an extension that leaves its own marks on the response of ITS request: a result entry and an error appended
+// by its ExecutionFinishFunc, both carrying the id of the request (taken from the request context).
+type recExt struct{}
+
+type reqIDKey struct{}
+
+func reqID(ctx context.Context) string {
+	if ctx == nil {
+		return "?"
+	}
+	if v, ok := ctx.Value(reqIDKey{}).(string); ok {
+		return v
+	}
+	return "?"
+}
+func (e *recExt) Init(ctx context.Context, p *graphql.Params) context.Context { return ctx }
+func (e *recExt) Name() string                                                { return "recorder" }
+func (e *recExt) ParseDidStart(ctx context.Context) (context.Context, graphql.ParseFinishFunc) {
+	return ctx, func(error) {}
+}
+func (e *recExt) ValidationDidStart(ctx context.Context) (context.Context, graphql.ValidationFinishFunc) {
+	return ctx, func([]gqlerrors.FormattedError) {}
+}
+func (e *recExt) ExecutionDidStart(ctx context.Context) (context.Context, graphql.ExecutionFinishFunc) {
+	id := reqID(ctx)
+	return ctx, func(r *graphql.Result) {
+		r.Errors = append(r.Errors, gqlerrors.FormatError(errors.New("recorder finished request "+id)))
+	}
+}
+func (e *recExt) ResolveFieldDidStart(ctx context.Context, i *graphql.ResolveInfo) (context.Context, graphql.ResolveFieldFinishFunc) {
+	return ctx, func(interface{}, error) {}
+}
+func (e *recExt) HasResult() bool                           { return true }
+func (e *recExt) GetResult(ctx context.Context) interface{} { return "request " + reqID(ctx) }
+
 var extModes = []string{"", "same", "child", "detached", "background", "nil"}
 
 func buildSchema(ext string) graphql.Schema {
@@ -186,7 +221,9 @@ func buildSchema(ext string) graphql.Schema {
 		Query:    graphql.NewObject(graphql.ObjectConfig{Name: "Query", Fields: fields}),
 		Mutation: graphql.NewObject(graphql.ObjectConfig{Name: "Mutation", Fields: mfields}),
 	}
-	if ext != "" {
+	if ext == "recorder" {
+		cfg.Extensions = []graphql.Extension{&recExt{}}
+	} else if ext != "" {
 		cfg.Extensions = []graphql.Extension{&ctxExt{mode: ext}}
 	}
 	schema, err := graphql.NewSchema(cfg)
@@ -397,7 +434,8 @@ func main() {
 	for _, m := range extModes {
 		schemas[m] = buildSchema(m)
 	}
-	run.Res.Rule = "query { f0 … f(n-1) } and mutation { m0 … m(n-1) } (serial top-level fields) with n = 0..6 sequential top-level resolvers, each blocking on its own gate; every resolver fails or not (with a plain error, or with context.Canceled / DeadlineExceeded of its own: sentinel, wrapped, or the error of a context it derived — ordinary field errors while the request context is live) and watches ctx.Done() or not; optionally an extension whose ExecutionDidStart returns the same / a child / a detached / a Background-based / a nil context (the caller's context must stay the watched one); optional gate inside variable coercion (custom scalar ParseValue); the context ends at one point: never / before the call / while step k is blocked (every k) / after the call returned / concurrently with the release of step k (race); context kinds: cancel, harness-triggered deadline (custom Context, Err = DeadlineExceeded), real WithTimeout, deadline already past, and the same with an explicit cause (WithCancelCause, WithTimeoutCause, WithDeadlineCause — own and inherited from a parent context; the response must carry ctx.Err(), not context.Cause); entries graphql.Do and PlanQuery+ExecutePlan; the run is recorded as model actions and validated by the compiled Lean model, the returned Result is compared with the model's expected Result; non-trivial = n >= 1; distinct by the whole case"
+	schemas["recorder"] = buildSchema("recorder")
+	run.Res.Rule = "query { f0 … f(n-1) } and mutation { m0 … m(n-1) } (serial top-level fields) with n = 0..6 sequential top-level resolvers, each blocking on its own gate; every resolver fails or not (with a plain error, or with context.Canceled / DeadlineExceeded of its own: sentinel, wrapped, or the error of a context it derived — ordinary field errors while the request context is live) and watches ctx.Done() or not; optionally an extension whose ExecutionDidStart returns the same / a child / a detached / a Background-based / a nil context (the caller's context must stay the watched one); optional gate inside variable coercion (custom scalar ParseValue); the context ends at one point: never / before the call / while step k is blocked (every k) / after the call returned / concurrently with the release of step k (race); context kinds: cancel, harness-triggered deadline (custom Context, Err = DeadlineExceeded), real WithTimeout, deadline already past, and the same with an explicit cause (WithCancelCause, WithTimeoutCause, WithDeadlineCause — own and inherited from a parent context; the response must carry ctx.Err(), not context.Cause); entries graphql.Do and PlanQuery+ExecutePlan; the run is recorded as model actions and validated by the compiled Lean model, the returned Result is compared with the model's expected Result; plus histories of several requests on one P (a cancelled request whose resolver finishes late followed by a request released after it; cancelled requests across schemas with and without an extension that marks its own response): every response must be the full / context-error response of ITS request; non-trivial = n >= 1; distinct by the whole case"
 
 	one := func(c caseT) {
 		steps := c.N
@@ -983,7 +1021,317 @@ func main() {
 			}
 		}
 	}
+	histories(run, drv, schemas)
 	run.Res.Exhaustive = false
 	run.Res.Extra["cancellation_points"] = "exhaustive per document: before the call, every step k = 0..n-1 (plus the coercion gate), after return, race at every k; n = 0..6"
 	run.Finish()
+}
+
+// ---------------------------------------------------------------- histories of several requests
+
+// hreq: one request of a history, driven by hand (its own world of gates; the resolvers read `cur` when they start,
+// so a request's steps must all have started before the next request's world is installed)
+type hreq struct {
+	id     string
+	w      *world
+	n      int
+	fails  []bool
+	op     string
+	ctx    context.Context
+	cancel context.CancelFunc
+	resCh  chan *graphql.Result
+	res    *graphql.Result
+}
+
+func startReq(schema graphql.Schema, id, entry, op string, fails []bool, deadline bool) *hreq {
+	n := len(fails)
+	h := &hreq{id: id, n: n, fails: fails, op: op, resCh: make(chan *graphql.Result, 1)}
+	h.w = &world{fails: fails, observes: make([]bool, n), entered: make(chan int, 32), left: make(chan leftEv, 32)}
+	for k := 0; k < n; k++ {
+		h.w.gate = append(h.w.gate, make(chan struct{}))
+	}
+	base := context.WithValue(context.Background(), reqIDKey{}, id)
+	if deadline {
+		m := &manualCtx{Context: base, done: make(chan struct{})}
+		h.ctx, h.cancel = m, m.expire
+	} else {
+		h.ctx, h.cancel = context.WithCancel(base)
+	}
+	cur = h.w
+	q, _ := query(caseT{N: n, Op: op})
+	go func() {
+		if entry == "plan" {
+			doc, err := parser.Parse(parser.ParseParams{Source: q})
+			if err != nil {
+				h.resCh <- nil
+				return
+			}
+			plan, err := graphql.PlanQuery(&schema, doc, "")
+			if err != nil {
+				h.resCh <- nil
+				return
+			}
+			h.resCh <- graphql.ExecutePlan(plan, graphql.ExecuteParams{Schema: schema, AST: doc, Context: h.ctx})
+		} else {
+			h.resCh <- graphql.Do(graphql.Params{Schema: schema, RequestString: q, Context: h.ctx})
+		}
+	}()
+	return h
+}
+
+// runTo: release the gates before step k and wait until step k has started (k = n: all steps released)
+func (h *hreq) runTo(k int) bool {
+	for s := 0; s <= k && s < h.n; s++ {
+		t := time.NewTimer(watchdog)
+		select {
+		case <-h.w.entered:
+			t.Stop()
+		case <-t.C:
+			return false
+		}
+		if s < k {
+			close(h.w.gate[s])
+		}
+	}
+	return true
+}
+
+func (h *hreq) await() bool {
+	t := time.NewTimer(watchdog)
+	defer t.Stop()
+	select {
+	case h.res = <-h.resCh:
+		return true
+	case <-t.C:
+		return false
+	}
+}
+
+func (h *hreq) returnedYet() bool {
+	select {
+	case h.res = <-h.resCh:
+		return true
+	default:
+		return false
+	}
+}
+
+func errTexts(r *graphql.Result) []string {
+	out := []string{}
+	if r != nil {
+		for _, e := range r.Errors {
+			out = append(out, e.Message)
+		}
+	}
+	return out
+}
+
+func waitExecutors(max int) int {
+	deadline := time.Now().Add(watchdog)
+	for i := 0; ; i++ {
+		n := len(executorGoroutines())
+		if n <= max || time.Now().After(deadline) {
+			return n
+		}
+		if i < 20 {
+			runtime.Gosched()
+		} else {
+			time.Sleep(100 * time.Microsecond)
+		}
+	}
+}
+
+func histories(run *hx.Run, drv *hx.Driver, schemas map[string]graphql.Schema) {
+	prev := runtime.GOMAXPROCS(1) // one P: what one request leaves behind (pools, shared objects) is what the next one finds
+	defer runtime.GOMAXPROCS(prev)
+	askFull := func(h *hreq) (string, error) { // the model's full response of a request that ran to completion
+		rs := []map[string]bool{}
+		acts := [][]interface{}{}
+		for k := 0; k < h.n; k++ {
+			rs = append(rs, map[string]bool{"fails": h.fails[k], "observes": false})
+			acts = append(acts, []interface{}{"step", k, false})
+		}
+		acts = append(acts, []interface{}{"finish"}, []interface{}{"selectResult"})
+		var m modelResp
+		if err := drv.Ask(map[string]interface{}{"rs": rs, "skipFirst": false, "cap": nil, "acts": acts, "prefix": map[bool]string{false: "f", true: "m"}[h.op == "mutation"]}, &m); err != nil {
+			return "", err
+		}
+		if !m.Valid || !m.Returned {
+			return "", errors.New("the model rejects a plain run to completion")
+		}
+		return recanon(m.Expected), nil
+	}
+	// (A) a cancelled request whose resolver finishes late, then a second request whose resolver is released after the
+	// first one's: the second response must be the second request's own full response
+	type pairT struct {
+		Entry1, Entry2, Op1, Op2 string
+		Fails1, Fails2           []bool
+		Deadline                 bool
+	}
+	for _, e1 := range []string{"do", "plan"} {
+		for _, e2 := range []string{"do", "plan"} {
+			for _, ops := range [][2]string{{"query", "query"}, {"query", "mutation"}, {"mutation", "query"}} {
+				for _, fs := range [][2][]bool{{{false}, {false, false}}, {{false, false}, {true}}, {{true}, {false}}, {{false}, {true, false, false}}} {
+					for _, dl := range []bool{false, true} {
+						if run.TooManyViolations() {
+							return
+						}
+						c := pairT{e1, e2, ops[0], ops[1], fs[0], fs[1], dl}
+						for i := 0; i < 50 && len(executorGoroutines()) > 0; i++ {
+							runtime.Gosched()
+						}
+						h1 := startReq(schemas[""], "one", c.Entry1, c.Op1, c.Fails1, c.Deadline)
+						fault := ""
+						var h2 *hreq
+						switch {
+						case !h1.runTo(h1.n - 1):
+							fault = "request 1: its last resolver was never started"
+						default:
+							h1.cancel()
+							if !h1.await() {
+								fault = "request 1 did not return after its context ended while its last resolver was blocked"
+								break
+							}
+							h2 = startReq(schemas[""], "two", c.Entry2, c.Op2, c.Fails2, false)
+							if !h2.runTo(h2.n - 1) {
+								fault = "request 2: its last resolver was never started"
+								break
+							}
+							// request 1's abandoned resolver finishes now; its executor sends its stale result and leaves
+							close(h1.w.gate[h1.n-1])
+							waitExecutors(1)
+							if h2.returnedYet() {
+								fault = "request 2 returned while its own last resolver was still blocked, right after request 1's abandoned resolver finished"
+							} else {
+								close(h2.w.gate[h2.n-1])
+								if !h2.await() {
+									fault = "request 2 did not return although every gate was released"
+								}
+							}
+						}
+						for _, h := range []*hreq{h1, h2} { // release whatever is still blocked
+							if h != nil {
+								for _, g := range h.w.gate {
+									select {
+									case <-g:
+									default:
+										close(g)
+									}
+								}
+								h.cancel()
+							}
+						}
+						left := waitExecutors(0)
+						run.Tag("history:late-resolver-of-a-cancelled-request-then-another-request")
+						run.Case("pair|"+hx.Canon(c), true, map[string]interface{}{"history": c})
+						replay := map[string]interface{}{"history": "cancelled request with a late-finishing resolver, then a second request", "case": c}
+						bad := fault
+						if bad == "" {
+							want, err := askFull(h2)
+							if err != nil {
+								run.CheckError(err.Error())
+								continue
+							}
+							got1, got2 := canonResult(h1.res, nil), canonResult(h2.res, nil)
+							replay["response_1"], replay["response_2"], replay["model_full_response_2"] = got1, got2, want
+							wantCtx := `{"data":null,"errs":[{"ctx":"canceled","path":[]}]}`
+							if c.Deadline {
+								wantCtx = `{"data":null,"errs":[{"ctx":"deadline","path":[]}]}`
+							}
+							switch {
+							case got1 != wantCtx:
+								bad = "request 1 (context ended while its resolver was blocked) did not return exactly the context error"
+							case got2 != want:
+								bad = "request 2's response is not its own full response (the model's): " + got2 + " instead of " + want
+							case left != 0:
+								bad = fmt.Sprintf("%d executor goroutine(s) still alive after the history", left)
+							}
+						}
+						if bad != "" {
+							run.Violation("history of two requests: "+bad, replay, false)
+							for _, id := range executorGoroutines() {
+								ignored[id] = true
+							}
+						}
+					}
+				}
+			}
+		}
+	}
+	// (B) cancelled requests across schemas with and without an extension that marks ITS request's response: every
+	// cancelled response is exactly the context's error plus the marks of its OWN extension, a fresh object each time
+	type seqT struct {
+		Schemas  []string
+		Entry    string
+		Deadline bool
+	}
+	for _, ss := range [][]string{{"recorder", ""}, {"recorder", "", "recorder"}, {"", "recorder", ""}, {"recorder", "recorder"}, {"", ""}, {"recorder", "same", ""}} {
+		for _, entry := range []string{"do", "plan"} {
+			for _, dl := range []bool{false, true} {
+				if run.TooManyViolations() {
+					return
+				}
+				c := seqT{ss, entry, dl}
+				var results []*graphql.Result
+				var want [][]string
+				bad := ""
+				shown := []interface{}{}
+				for i, sn := range ss {
+					id := fmt.Sprintf("r%d", i)
+					h := startReq(schemas[sn], id, entry, "query", []bool{false}, dl)
+					if !h.runTo(0) {
+						bad = "request " + id + ": its resolver was never started"
+						break
+					}
+					h.cancel()
+					ok := h.await()
+					close(h.w.gate[0])
+					waitExecutors(0)
+					if !ok {
+						bad = "request " + id + " did not return after its context ended while its resolver was blocked"
+						break
+					}
+					w := []string{h.ctx.Err().Error()}
+					if sn == "recorder" {
+						w = append(w, "recorder finished request "+id)
+					}
+					results = append(results, h.res)
+					want = append(want, w)
+				}
+				run.Tag("history:cancelled-requests-across-schemas-with-and-without-extensions")
+				run.Case("seq|"+hx.Canon(c), true, map[string]interface{}{"history": c})
+				// compare at the END of the history: an earlier response must not have been changed by a later request either
+				for i, r := range results {
+					if bad != "" {
+						break
+					}
+					var ext interface{}
+					if r != nil && r.Extensions != nil {
+						ext = r.Extensions
+					}
+					shown = append(shown, map[string]interface{}{"schema": ss[i], "errors": errTexts(r), "extensions": ext, "data_is_nil": r != nil && r.Data == nil})
+					wantExt := interface{}(nil)
+					if ss[i] == "recorder" {
+						wantExt = map[string]interface{}{"recorder": fmt.Sprintf("request r%d", i)}
+					}
+					switch {
+					case r == nil || r.Data != nil:
+						bad = fmt.Sprintf("response %d has data although its context ended while its resolver was blocked", i)
+					case hx.Canon(errTexts(r)) != hx.Canon(want[i]):
+						bad = fmt.Sprintf("response %d (schema %q) carries the errors %v, it must carry exactly %v (the context's error and what its own extension added)", i, ss[i], errTexts(r), want[i])
+					case hx.Canon(ext) != hx.Canon(wantExt):
+						bad = fmt.Sprintf("response %d (schema %q) carries the extensions %s, it must carry %s", i, ss[i], hx.Canon(ext), hx.Canon(wantExt))
+					}
+					for j := 0; j < i && bad == ""; j++ {
+						if results[j] == r {
+							bad = fmt.Sprintf("responses %d and %d are the same *Result object", j, i)
+						}
+					}
+				}
+				if bad != "" {
+					run.Violation("history of cancelled requests: "+bad, map[string]interface{}{"history": "cancelled requests across schemas with and without extensions", "case": c, "responses": shown}, false)
+				}
+			}
+		}
+	}
 }
